@@ -26,7 +26,7 @@ def doOp (w : W) (tok : String) : Option (String × W) :=
   | ["read"] =>
       -- read_nonblocking polls, and on the way checks liveness (which records the status of a dead child)
       some ((match spRead w with | .badf => "OSError" | .usesOwnFd => "ok" | .touchesForeignFd => "FOREIGN" | .valueError => "ValueError"),
-            if w.sp.closed then w else (spIsalive w).2)
+            stepOp w .read)
   | _ => none
 
 def handle (toks : List String) : String :=
